@@ -26,12 +26,13 @@ ok=no; [ $clean = 0 ] && [ $build = 0 ] && [ $suite = 0 ] && [ $patched != 0 ] &
 echo "$id $m: demo_on_clean=$clean build=$build suite_with_patch=$suite demo_with_patch=$patched => confirmed=$ok ($(( $(date +%s)-t0 ))s)"
 if [ $ok = yes ]; then
   mkdir -p $dst && cp $src/patch.diff $demo $src/README.md $src/demo_path.txt $dst/ 2>/dev/null
-  python3 - "$id" "$m" "$rel" "$run" "$pkg" <<'PY'
+  base=$(git -C $wt rev-parse --short HEAD)
+  python3 - "$id" "$m" "$rel" "$run" "$pkg" "$base" <<'PY'
 import json,sys,re,os
-id,m,rel,run,pkg=sys.argv[1:6]
+id,m,rel,run,pkg,base=sys.argv[1:7]
 dst='/verif/seeded/%s-%s'%(id,m)
 readme=open(dst+'/README.md').read() if os.path.exists(dst+'/README.md') else ''
-meta={"property":id,"name":"%s-%s"%(id,m),"base_commit":"a8cb25f (pinned snapshot, before any fix: commit)",
+meta={"property":id,"name":"%s-%s"%(id,m),"base_commit":base+(" (pinned snapshot, before any fix: commit)" if base.startswith("a8cb25f") else " (/repo with the fix: commits up to this one)"),
  "demo_file":rel,"demo_cmd":"go test -vet=off -count=1 %s %s"%(run,pkg),
  "needs_to_manifest":"see README.md (written by the sub-agent that produced the change)",
  "confirmed":{"demo_passes_on_clean_tree":True,"builds_with_patch":True,"existing_suite_passes_with_patch":True,"demo_fails_with_patch":True,
